@@ -233,6 +233,7 @@ ApplyRaw(s, e) ==
     [] e.a = "xcell"    -> ApiXCell(s, e["in"])
     [] e.a = "xsum"     -> ApiXSum(s, e.sel, e.ins)
     [] e.a = "cutoff"   -> ApiSetCutoff(s, e.n, [c |-> e.c])
+    [] e.a = "xarm"     -> ApiXArm(s, e.n)
     [] e.a = "write"    -> VarWrite(s, e.n, e.op, e.x)
     [] e.a = "observe"  -> ApiObserve(s, e.n)
     [] e.a = "observe_leaked" -> ApiObserve(s, s.leaked[e.i])
